@@ -1355,3 +1355,44 @@ def switchfit(repo):
         raise AnalysisError("_get_switch_candidate: no return of a (discriminant, case) pair found")
     res.analysed = [hg.rel]
     return res
+
+
+def choicetype(repo, facts):
+    """R-CHOICETYPE (C07/C01): agreement between the runtime's contract and the generator.  ::emboss::support::Choice
+    static_asserts is_same<IntermediateT, ResultT>; the generic intermediate type covers the ranges of *all* arguments
+    and is wider than the result type whenever the condition is a constant (the result then has the selected branch's
+    range).  So _render_builtin_operation must, for FunctionMapping.CHOICE, set the intermediate type to the result type
+    before it formats the template arguments."""
+    res = RuleResult("R-CHOICETYPE")
+    ch = [f for f in facts.functions if f.name == "Choice"]
+    if not ch:
+        raise AnalysisError("runtime: ::emboss::support::Choice not found")
+    body = " ".join(ch[0].body.split())
+    res.instances += 1
+    if not re.search(r"static_assert\s*\(\s*(::)?std::is_same<\s*IntermediateT\s*,\s*ResultT\s*>::value", body):
+        res.samples.append("Choice no longer requires IntermediateT == ResultT; nothing to agree on")
+        return res
+    hg = repo.mod("compiler/back_end/cpp/header_generator.py")
+    fs = [f for f in hg.top_funcs() if f.name == "_render_builtin_operation"]
+    if not fs:
+        raise AnalysisError("header_generator._render_builtin_operation not found")
+    f = fs[0]
+    fmt_line = None
+    for n in walk_no_nested_funcs(f.node):
+        if isinstance(n, ast.Assign) and isinstance(n.targets[0], ast.Name) and n.targets[0].id == "function_variant":
+            fmt_line = n.lineno
+    if fmt_line is None:
+        raise AnalysisError("_render_builtin_operation: the statement formatting the template arguments was not found")
+    ok = False
+    for n in walk_no_nested_funcs(f.node):
+        if isinstance(n, ast.If) and "FunctionMapping.CHOICE" in ast.unparse(n.test) and n.lineno < fmt_line:
+            for st in n.body:
+                if isinstance(st, ast.Assign) and ast.unparse(st.targets[0]) == "intermediate_type" and ast.unparse(st.value) == "result_type":
+                    ok = True
+    res.instances += 1
+    if not ok:
+        res.add(f"{hg.rel}|_render_builtin_operation|choice", "Choice<IntermediateT, ResultT, ...> is instantiated with the generic "
+                "intermediate type (covering all arguments) although the runtime requires IntermediateT == ResultT: `let v = true ? a "
+                ": b` with a narrow a and a 64-bit b fails the runtime's static_assert when the field is used", hg.rel, fmt_line, f.name)
+    res.analysed = [hg.rel, "runtime/cpp/emboss_arithmetic.h"]
+    return res
